@@ -11,7 +11,7 @@
    op_nojar excludes only SetCookieJar without a factory (the documented shared jar);
    op_api excludes appending to the wrapper lists behind WrapRoundTrip's back (no API does). *)
 From Coq Require Import List Arith Bool.
-From ReqV Require Import Model.Settings Model.ReExec Gen.CloneTable Proofs.SettingsHeap Proofs.SettingsValue Proofs.SettingsSim Proofs.ReExecProofs Proofs.C19Top.
+From ReqV Require Import Model.Settings Model.ReExec Model.LiveSel Gen.CloneTable Proofs.SettingsHeap Proofs.SettingsValue Proofs.SettingsSim Proofs.ReExecProofs Proofs.C19Top.
 Import ListNotations.
 
 (* the Clone code, as read from the source by gosync, deep-copies every reference the model tracks,
@@ -167,6 +167,18 @@ Theorem C19_reexec_fastpath_refuted :
   map (fun s => snd (fst s)) (snd (rexec good_prologue cookie_client 1 1 (hrun good_prologue h rq0))) = [[5]; [5]].
 Proof. exact fastpath_refuted. Qed.
 Print Assumptions C19_reexec_fastpath_refuted.
+
+(* ---------- client-level transport settings changed AFTER use (Model/LiveSel.v) ---------- *)
+(* a forced HTTP version governs every later request whatever connection the client cached before
+   (the guard around the cached-connection lookup is read from Transport.roundTrip by gosync) *)
+Theorem C19_force_version_governs_regardless_of_cached_connection : forall cached,
+  live_sel gen_guard 1 cached = Some 1 /\ live_sel gen_guard 2 cached = Some 2.
+Proof. exact force_governs_regardless_of_cache. Qed.
+Print Assumptions C19_force_version_governs_regardless_of_cached_connection.
+
+Theorem C19_unguarded_cached_lookup_refuted : live_sel {| g_h1guard := false |} 1 true = Some 2.
+Proof. exact unguarded_refuted. Qed.
+Print Assumptions C19_unguarded_cached_lookup_refuted.
 
 Example C19_nonvacuous :
   Forall op_api witness /\ Forall op_nojar witness /\
